@@ -261,3 +261,64 @@ Proof.
     + apply pd2. intros x Hx. apply (Dd x ex_water Hx eq_refl).
   - eexists. split; vm_compute; reflexivity.
 Qed.
+
+(* ---------- the sorted list views used by the correspondence (dynamic_atoms / dynamic_bonds) list exactly the
+   dynamic atoms / bonds ---------- *)
+Lemma In_kinsert {V} (x y : Z * V) l : In y (kinsert x l) <-> y = x \/ In y l.
+Proof.
+  induction l as [|z l IH]; cbn [kinsert In]; [intuition|].
+  destruct (fst x <=? fst z); cbn [In]; [intuition|]. rewrite IH. intuition.
+Qed.
+
+Lemma In_ksort {V} (y : Z * V) l : In y (ksort l) <-> In y l.
+Proof.
+  unfold ksort. induction l as [|x l IH]; cbn [fold_right In]; [reflexivity|]. rewrite In_kinsert, IH. intuition.
+Qed.
+
+Lemma In_zlsort x l : In x (zlsort l) <-> In x l.
+Proof.
+  unfold zlsort. rewrite in_map_iff. split.
+  - intros [[y u] [E H]]. cbn in E. subst y. rewrite In_ksort in H. apply in_map_iff in H. destruct H as [z [Ez Hz]].
+    inversion Ez. subst. exact Hz.
+  - intros H. exists (x, tt). split; [reflexivity|]. rewrite In_ksort. apply in_map_iff. exists x. split; [reflexivity|exact H].
+Qed.
+
+Definition cgr_nodup (h : cgr) : Prop :=
+  NoDup (keys (c_atoms h)) /\ NoDup (keys (c_adj h)) /\ forall n l, In (n, l) (c_adj h) -> NoDup (keys l).
+
+Lemma wf_cgr_nodup h : wf_cgr h = true -> cgr_nodup h.
+Proof.
+  unfold wf_cgr. intros H. apply andb_prop in H. destruct H as [H W]. apply andb_prop in H. destruct H as [E N].
+  apply list_eqb_Z_eq' in E. apply nodup_z_NoDup in N. split; [exact N|]. split; [rewrite <- E; exact N|].
+  intros n l Hi. rewrite forallb_forall in W. specialize (W (n, l) Hi). cbn [fst snd] in W.
+  apply andb_prop in W. destruct W as [W _]. apply nodup_z_NoDup. exact W.
+Qed.
+
+Theorem dynamic_atoms_spec h n : cgr_nodup h -> (In n (dynamic_atoms h) <-> is_dynamic_atom h n).
+Proof.
+  intros [Na _]. unfold dynamic_atoms, is_dynamic_atom, catom. rewrite In_zlsort, in_map_iff. split.
+  - intros [[n' a] [E H]]. cbn in E. subst n'. apply filter_In in H. destruct H as [Hi Hd]. cbn in Hd.
+    exists a. split; [apply In_zget; assumption|exact Hd].
+  - intros [a [E Hd]]. exists (n, a). split; [reflexivity|]. apply filter_In. split; [apply zget_In; exact E|exact Hd].
+Qed.
+
+Theorem dynamic_bonds_spec h n m : cgr_nodup h -> (In (n, m) (dynamic_bonds h) <-> n < m /\ is_dynamic_bond h n m).
+Proof.
+  intros [_ [Nb Nl]]. unfold dynamic_bonds, is_dynamic_bond, cbond, cnbrs. rewrite in_flat_map. split.
+  - intros [[n' l] [Hnl H]]. rewrite In_ksort in Hnl. cbn [fst snd] in H. apply in_map_iff in H.
+    destruct H as [[m' b] [E H]]. cbn [fst] in E. inversion E. subst n' m'. apply filter_In in H. destruct H as [Hi Hc].
+    rewrite In_ksort in Hi. cbn [fst snd] in Hc. apply andb_prop in Hc. destruct Hc as [Hlt Hd]. apply Z.ltb_lt in Hlt.
+    split; [exact Hlt|]. exists b. split; [|exact Hd].
+    rewrite (In_zget _ _ _ Nb Hnl). apply In_zget; [apply (Nl n l Hnl)|exact Hi].
+  - intros [Hlt [b [E Hd]]]. destruct (zget (c_adj h) n) as [l|] eqn:El; [|discriminate].
+    exists (n, l). split; [rewrite In_ksort; apply zget_In; exact El|]. cbn [fst snd]. apply in_map_iff.
+    exists (m, b). split; [reflexivity|]. apply filter_In. split; [rewrite In_ksort; apply zget_In; exact E|].
+    cbn [fst snd]. apply andb_true_intro. split; [apply Z.ltb_lt; exact Hlt|exact Hd].
+Qed.
+
+Theorem dynamic_lists_spec h : wf_cgr h = true ->
+  (forall n, In n (dynamic_atoms h) <-> is_dynamic_atom h n) /\
+  (forall n m, In (n, m) (dynamic_bonds h) <-> n < m /\ is_dynamic_bond h n m).
+Proof.
+  intros W. split; [intros n; apply dynamic_atoms_spec | intros n m; apply dynamic_bonds_spec]; apply wf_cgr_nodup; exact W.
+Qed.
